@@ -9,3 +9,31 @@ var VerifYieldBlocked = func(label string) {}
 
 func verifYield(label string)        { VerifYield(label) }
 func verifYieldBlocked(label string) { VerifYieldBlocked(label) }
+
+// VerifPeek reads the gate's internal state while every managed goroutine is parked (used only to
+// tighten trace conformance, never by the property monitors): flush flag, number of buffered
+// lines, whether the lock is write-held / read-held.
+func (w *GatedWriter) VerifPeek() (flush bool, nbuf int, wr bool, rd bool) {
+	if w.lock.TryLock() {
+		w.lock.Unlock()
+	} else if w.lock.TryRLock() {
+		w.lock.RUnlock()
+		rd = true
+	} else {
+		wr = true
+	}
+	return w.flush, len(w.buf), wr, rd
+}
+
+// VerifPeek: ring contents (as stored), next index, number of handlers, lock held.
+func (l *logWriter) VerifPeek() (logs []string, index int, handlers int, locked bool) {
+	if l.TryLock() {
+		l.Unlock()
+	} else {
+		locked = true
+	}
+	return append([]string(nil), l.logs...), l.index, len(l.handlers), locked
+}
+
+// VerifLogWriter is the (unexported) concrete type behind NewLogWriter.
+type VerifLogWriter = logWriter
